@@ -93,3 +93,7 @@ impl<K, V> FromIterator<(K, V)> for OrderMap<K, V> {
         Self(Vec::from_iter(i))
     }
 }
+
+#[cfg(kani)]
+#[path = "/verif/kani/ordermap.rs"]
+mod kani_verif;
